@@ -59,6 +59,10 @@ pub enum WsStep {
         pad: u32,
         #[serde(with = "hex")]
         last: Vec<u8>,
+        /// while the relay is still not reading, it sends a keep-alive; the application reads
+        /// it (its reply has to queue behind everything else) before it writes `last`
+        #[serde(default)]
+        ka: bool,
     },
 }
 
@@ -90,6 +94,11 @@ pub struct WsSc {
     /// run with a tracing subscriber that enables every span and event
     #[serde(default)]
     pub trace: bool,
+    /// the adaptor is used as what it is published as — an `AsyncRead` — by a hand-written
+    /// framing reader (`read_exact` of the size byte, then of the rest of the frame) instead of
+    /// the library's connection; only the Send steps of the session are performed
+    #[serde(default)]
+    pub direct: bool,
 }
 
 /// text the relay may send (status lines, JSON, error pages): short or long, ASCII or not
@@ -130,8 +139,10 @@ enum WEv {
     End { res: AppRes },
     Burst { wrote: Vec<AppRes>, got: Vec<String> },
     /// outcome per write (0 dropped while pending, 1 completed, 2 failed), what the server saw
-    Abandoned { outcome: Vec<u8>, failed: Option<AppRes>, last: AppRes, got: Vec<String> },
+    Abandoned { outcome: Vec<u8>, failed: Option<AppRes>, ka_read: Option<AppRes>, last: AppRes, got: Vec<String> },
     Cancelled { completed: Option<AppRes> },
+    /// direct mode: one frame read through `read_exact` (hex), or why not
+    DirectRead { frame: Result<String, String> },
 }
 
 struct WsRun {
@@ -209,6 +220,58 @@ fn run_ws_inner(sc: &WsSc) -> WsRun {
         let _ = server_tcp.set_nodelay(true);
         let client_ws = WebSocketStream::from_raw_socket(MaybeTlsStream::Plain(client_tcp), Role::Client, None).await;
         let mut server: Srv = WebSocketStream::from_raw_socket(server_tcp, Role::Server, None).await;
+        if sc.direct {
+            use tokio::io::AsyncReadExt;
+            let mut ws = insim::net::tokio_impl::WebsocketStream::from(client_ws);
+            let mut stream: Vec<u8> = Vec::new();
+            let mut frames_read = 0usize;
+            for st in &sc.steps {
+                let WsStep::Send(msgs) = st else { continue };
+                for m in msgs {
+                    let msg = match m {
+                        WsMsg::Binary(b) => {
+                            stream.extend_from_slice(b);
+                            Message::binary(b.clone())
+                        },
+                        WsMsg::Text(t) => Message::Text(t.clone()),
+                        WsMsg::Ping(p) => Message::Ping(p.clone()),
+                        WsMsg::Pong(p) => Message::Pong(p.clone()),
+                    };
+                    if tokio::time::timeout(GUARD, server.send(msg)).await.is_err() {
+                        return Err("server send".into());
+                    }
+                }
+                let frames = split_frames(sc.mode, &stream);
+                let complete = frames.iter().filter(|f| f.kind == FrameKind::Complete).count();
+                while frames_read < complete {
+                    let want = frames[frames_read].len;
+                    let r = tokio::time::timeout(GUARD, async {
+                        let mut head = [0u8; 1];
+                        ws.read_exact(&mut head).await.map_err(|e| format!("size byte: {}", e))?;
+                        let n = sc.mode.announced(head[0]);
+                        let mut f = vec![0u8; n.max(1)];
+                        f[0] = head[0];
+                        if n > 1 {
+                            ws.read_exact(&mut f[1..]).await.map_err(|e| format!("frame body: {}", e))?;
+                        }
+                        Ok::<_, String>(f)
+                    })
+                    .await;
+                    let frame = match r {
+                        Err(_) => Err(format!("no frame within the 3 s guard although all {} bytes of it had been sent", want)),
+                        Ok(Ok(f)) => Ok(hex::enc(&f)),
+                        Ok(Err(e)) => Err(e),
+                    };
+                    let bad = frame.is_err();
+                    events.push(WEv::DirectRead { frame });
+                    frames_read += 1;
+                    if bad {
+                        return Ok(());
+                    }
+                }
+            }
+            return Ok(());
+        }
         let mut framed = insim::net::tokio_impl::Framed::new(
             Box::new(insim::net::tokio_impl::WebsocketStream::from(client_ws)),
             Codec::new(sc.mode.to_mode()),
@@ -282,7 +345,7 @@ fn run_ws_inner(sc: &WsSc) -> WsRun {
                     };
                     events.push(WEv::Cancelled { completed });
                 },
-                WsStep::AbandonedBurst { count, pad, last } => {
+                WsStep::AbandonedBurst { count, pad, last, ka } => {
                     let Some(last_p) = ref_decode_packet(sc.mode, last).1 else { continue };
                     let mut outcome = Vec::new();
                     let mut failed = None;
@@ -311,12 +374,27 @@ fn run_ws_inner(sc: &WsSc) -> WsRun {
                     }
                     let want_last = ref_encode(sc.mode, &last_p).map(|b| format!("binary:{}", hex::enc(&b))).unwrap_or_default();
                     let cap = *count as usize + 8;
+                    // (only between frames: the keep-alive must not land inside a frame that an
+                    // earlier step left half sent)
+                    let want_ka = *ka && failed.is_none() && split_frames(sc.mode, &stream).iter().all(|f| f.kind == FrameKind::Complete);
+                    if want_ka {
+                        let _ = tokio::time::timeout(GUARD, server.send(Message::Binary(sc.mode.pong().to_vec()))).await;
+                    }
                     let cli = async {
-                        match tokio::time::timeout(GUARD * 4, framed.write(last_p)).await {
+                        let ka_read = if want_ka {
+                            Some(match tokio::time::timeout(GUARD * 4, framed.read()).await {
+                                Err(_) => AppRes::Other("the keep-alive sent by the relay was not returned within 12 s although the relay was reading again".into()),
+                                Ok(r) => to_res(r),
+                            })
+                        } else {
+                            None
+                        };
+                        let last = match tokio::time::timeout(GUARD * 4, framed.write(last_p)).await {
                             Err(_) => AppRes::Other("write did not finish within 12 s although the server was reading again".into()),
                             Ok(Ok(())) => AppRes::Done,
                             Ok(Err(e)) => AppRes::from_err(&e),
-                        }
+                        };
+                        (ka_read, last)
                     };
                     let srv = async {
                         let mut got = Vec::new();
@@ -337,8 +415,12 @@ fn run_ws_inner(sc: &WsSc) -> WsRun {
                         }
                         got
                     };
-                    let (last, got) = tokio::join!(cli, srv);
-                    events.push(WEv::Abandoned { outcome, failed, last, got });
+                    let ((ka_read, last), got) = tokio::join!(cli, srv);
+                    if std::env::var("VERIF_DEBUG").is_ok() {
+                        let ones: Vec<usize> = outcome.iter().enumerate().filter(|(_, o)| **o == 1).map(|(i, _)| i).collect();
+                        eprintln!("abandoned: completed {:?} of {}; last {:?}; got {} msgs; tail {:?}", ones, outcome.len(), last, got.len(), got.iter().rev().take(3).map(|s| s.chars().take(40).collect::<String>()).collect::<Vec<_>>());
+                    }
+                    events.push(WEv::Abandoned { outcome, failed, ka_read, last, got });
                 },
                 WsStep::WriteBurst(fs) => {
                     let pkts: Vec<insim::Packet> = fs.iter().filter_map(|f| ref_decode_packet(sc.mode, f).1).collect();
@@ -687,7 +769,8 @@ impl Prop for C20 {
             // short and unlike any burst frame: the server recognises the end of the step by it
             let last = gen::tiny(mode, 0xAB, 3);
             let at = rng.usize(0, steps.len());
-            steps.insert(at, WsStep::AbandonedBurst { count, pad, last });
+            let ka = rng.chance(1, 2);
+            steps.insert(at, WsStep::AbandonedBurst { count, pad, last, ka });
         }
         // in a third of the sessions the end of the stream is already queued behind the last
         // messages when the application gets round to reading them; the sentinel then goes
@@ -713,7 +796,11 @@ impl Prop for C20 {
         }
         let close_code = if rng.chance(1, 2) { 0 } else { *rng.pick(&[1000u16, 1001, 1012, 1008, 1011, 4000]) };
         let _ = &storm_at;
-        WsSc { mode, steps, end, late_read, close_code, trace: rng.chance(1, 8) }
+        let direct = rng.chance(1, 10);
+        if direct {
+            steps.retain(|s| matches!(s, WsStep::Send(_)));
+        }
+        WsSc { mode, steps, end, late_read, close_code, trace: rng.chance(1, 8), direct }
     }
 
     fn execute(&self, sc: &WsSc) -> RunReport {
@@ -723,11 +810,93 @@ impl Prop for C20 {
             rep.probe("harness_socket_error");
             return rep;
         }
-        let tag = format!("[ws/{:?}]", sc.mode);
+        let tag = format!("[ws/{:?}{}]", sc.mode, if sc.direct { "/adaptor read directly" } else { "" });
         let pong = format!("binary:{}", hex::enc(&sc.mode.pong()));
         let evs = &run.events;
+        if sc.direct {
+            // the frames a framing reader gets out of the adaptor are the frames that were sent
+            rep.probe("adaptor_read_with_read_exact");
+            let mut stream: Vec<u8> = Vec::new();
+            for st in &sc.steps {
+                if let WsStep::Send(msgs) = st {
+                    for m in msgs {
+                        if let WsMsg::Binary(b) = m {
+                            stream.extend_from_slice(b);
+                        }
+                    }
+                }
+            }
+            let frames = split_frames(sc.mode, &stream);
+            let mut h = Fnv::default();
+            let mut k = 0usize;
+            for e in evs.iter() {
+                match e {
+                    WEv::DirectRead { frame } => {
+                        let Some(f) = frames.get(k) else { break };
+                        let want = hex::enc(&stream[f.start..f.start + f.len]);
+                        match frame {
+                            Ok(got) if *got == want => {
+                                h.write(got.as_bytes());
+                            },
+                            Ok(got) => {
+                                rep.violations.push(v("ws.direct_read", format!("{} frame {} read with read_exact is {} but {} was sent", tag, k, got.chars().take(80).collect::<String>(), want.chars().take(80).collect::<String>())));
+                                break;
+                            },
+                            Err(why) => {
+                                rep.violations.push(v("ws.direct_read", format!("{} frame {} ({} bytes, sent in full): {}", tag, k, f.len, why)));
+                                break;
+                            },
+                        }
+                        k += 1;
+                    },
+                    WEv::Read { res: AppRes::Other(m), .. } if m.starts_with("panic: ") => {
+                        rep.violations.push(v("ws.panic", format!("{} the adaptor panicked after {} frames: {}", tag, k, m)));
+                        break;
+                    },
+                    _ => {},
+                }
+            }
+            rep.nontrivial = true;
+            let mut sig = Fnv::default();
+            sig.u64(99);
+            sig.u64(frames.len().min(16) as u64);
+            rep.signature = sig.finish();
+            rep.trace_hash = h.finish();
+            return rep;
+        }
         let mut i = 0usize;
         let mut h = Fnv::default();
+        // every binary message the relay receives is one frame: as long as its size byte says
+        {
+            let mut msgs: Vec<&String> = Vec::new();
+            for e in evs.iter() {
+                match e {
+                    WEv::ServerGot { msg } => msgs.push(msg),
+                    WEv::Burst { got, .. } | WEv::Abandoned { got, .. } => msgs.extend(got.iter()),
+                    _ => {},
+                }
+            }
+            for m in msgs {
+                if let Some(hx) = m.strip_prefix("binary:") {
+                    if let Ok(b) = hex::dec(hx) {
+                        if !b.is_empty() && sc.mode.announced(b[0]) != b.len() {
+                            rep.violations.push(v(
+                                "ws.message_not_one_frame",
+                                format!("{} the relay received a binary message of {} bytes whose size byte announces {}: {}", tag, b.len(), sc.mode.announced(b[0]), hx.chars().take(80).collect::<String>()),
+                            ));
+                            break;
+                        }
+                    }
+                }
+            }
+        }
+        // a panic anywhere in the session (in a read, a write, a burst) ends it; where it
+        // happened is the number of events recorded before it
+        if let Some(WEv::Read { res: AppRes::Other(m), .. }) = evs.last() {
+            if let Some(msg) = m.strip_prefix("panic: ") {
+                rep.violations.push(v("ws.panic", format!("{} the connection panicked after {} completed steps / reads: {}", tag, evs.len() - 1, msg)));
+            }
+        }
         let mut sig = Fnv::default();
         let mut stream: Vec<u8> = Vec::new();
         let mut frames_read = 0usize;
@@ -885,7 +1054,7 @@ impl Prop for C20 {
                         break 'steps;
                     }
                 },
-                WsStep::AbandonedBurst { count, pad, last } => {
+                WsStep::AbandonedBurst { count, pad, last, ka } => {
                     let Some(want_last) = ref_decode_packet(sc.mode, last).1.and_then(|p| ref_encode(sc.mode, &p).ok()).map(|b| format!("binary:{}", hex::enc(&b))) else { continue };
                     // expected message per write, by the reference encoder on its own
                     let mut index: std::collections::HashMap<String, usize> = std::collections::HashMap::new();
@@ -899,7 +1068,7 @@ impl Prop for C20 {
                             },
                         }
                     }
-                    let Some(WEv::Abandoned { outcome, failed, last: last_res, got }) = evs.get(i) else {
+                    let Some(WEv::Abandoned { outcome, failed, ka_read, last: last_res, got }) = evs.get(i) else {
                         stopped = true;
                         break 'steps;
                     };
@@ -914,6 +1083,18 @@ impl Prop for C20 {
                         stopped = true;
                         break 'steps;
                     }
+                    let ka = &(*ka && split_frames(sc.mode, &stream).iter().all(|f| f.kind == FrameKind::Complete));
+                    if *ka {
+                        rep.probe("keepalive_answered_behind_a_backlog");
+                        match ka_read {
+                            Some(AppRes::Pkt(d)) if d.contains("subt: None") => {},
+                            other => {
+                                rep.violations.push(v("ws.read_failed", format!("{} the keep-alive sent while {} writes were backed up was not returned: {:?}", tag, count, other)));
+                                stopped = true;
+                                break 'steps;
+                            },
+                        }
+                    }
                     if *last_res != AppRes::Done {
                         rep.violations.push(v("ws.write_failed", format!("{} the write after the reader had resumed failed: {:?}", tag, last_res)));
                         stopped = true;
@@ -926,7 +1107,13 @@ impl Prop for C20 {
                     let mut bad: Option<String> = None;
                     let mut prev: Option<usize> = None;
                     let mut seen_completed = 0usize;
+                    let mut replies = 0usize;
                     for (mi, m) in got.iter().enumerate() {
+                        if *ka && mi + 1 != got.len() && *m == pong {
+                            // the one reply to the keep-alive, queued behind whatever was queued
+                            replies += 1;
+                            continue;
+                        }
                         if mi + 1 == got.len() {
                             if *m != want_last {
                                 bad = Some(format!("the last message seen by the server is {} but the write awaited in full was {}", m.chars().take(80).collect::<String>(), want_last.chars().take(80).collect::<String>()));
@@ -954,6 +1141,11 @@ impl Prop for C20 {
                                 prev = Some(*k);
                             },
                         }
+                    }
+                    if bad.is_none() && *ka && replies != 1 {
+                        rep.violations.push(v("ws.reply_message", format!("{} one keep-alive was received while {} writes were backed up behind a relay that had stopped reading: {} replies reached the relay", tag, count, replies)));
+                        stopped = true;
+                        break 'steps;
                     }
                     let completed = outcome.iter().filter(|o| **o == 1).count();
                     if bad.is_none() && seen_completed < completed {
@@ -1177,6 +1369,7 @@ impl Prop for C20 {
                 late_read: false,
                 close_code: 0,
                 trace: false,
+                direct: false,
             });
             // a connection abandoned with most of a large message still undelivered
             v.push(WsSc {
@@ -1186,6 +1379,7 @@ impl Prop for C20 {
                 late_read: false,
                 close_code: 0,
                 trace: false,
+                direct: false,
             });
             // a connection abandoned with a partial frame received
             v.push(WsSc {
@@ -1195,6 +1389,7 @@ impl Prop for C20 {
                 late_read: false,
                 close_code: 0,
                 trace: false,
+                direct: false,
             });
         }
         v
